@@ -25,7 +25,7 @@ META = {
     "ready": True,
     "category": "proof",
     "technique": "Lean 4 invariant over all executions of the tail-aware VM (frame depth never grows when calls are in tail position) + stack-depth probes on the real engine over loop shapes, JIT on/off",
-    "level_text": "Proved for every program of the lowered core, every iteration count and every reachable state (SteelVerif/C09/Props.lean): tailcall_reuses_frame, step_depth, tail_positions_marked (all calls in tail position => the generated code contains no frame-pushing call), loop_constant_space / maxDepth_constant (such a program never has a suspended caller, whatever the number of steps), loop_operand_stack_bounded (its operand stack never holds more than largest arity + longest body, a bound in which the step count does not occur), loop_never_overflows (it never hits the frame limit), tail_loop_any_count (one concrete self-recursive loop halts with 1+...+n for EVERY n under every frame limit, after 11n+9 instructions), depth_bounded / frames_never_exceed_limit and call_at_limit_overflows (for every program the frame stack stays within the limit and the call beyond it yields an error value). deep_recursion_overflows (one concrete non-tail recursion ends with the error value for every limit and every depth >= limit). Not proved: correctness of the tail-aware code generator, closures/apply/rest arguments/handlers (not in the model); see the list at the end of Props.lean. The real engine is tied in by probes: for each loop shape the frame-stack length and the operand-stack length at an early and at a late iteration are read with the cfg(steel_verif) builtin #%verif-stack-depth and must be equal, for 10^6 (quick) / 10^7 (thorough) iterations, with STEEL_JIT on and off.",
+    "level_text": "Proved for every program of the lowered core, every iteration count and every reachable state (SteelVerif/C09/Props.lean): tailcall_reuses_frame, step_depth, tail_positions_marked (all calls in tail position => the generated code contains no frame-pushing call), loop_constant_space / maxDepth_constant (such a program never has a suspended caller, whatever the number of steps), loop_operand_stack_bounded (its operand stack never holds more than largest arity + longest body, a bound in which the step count does not occur), loop_never_overflows (it never hits the frame limit), tail_loop_any_count (one concrete self-recursive loop halts with 1+...+n for EVERY n under every frame limit, after 11n+9 instructions), depth_bounded / frames_never_exceed_limit and call_at_limit_overflows (for every program the frame stack stays within the limit and the call beyond it yields an error value). deep_recursion_overflows (one concrete non-tail recursion ends with the error value for every limit and every depth >= limit). On the closure core of C01 (SteelVerif/C01/Core.lean: the REAL op codes FUNC / TAILCALL / TCOJMP / CALLGLOBAL(TAIL), one shared operand stack, first-class closures, captured and boxed variables, rest arguments; its code generator is PROVED correct in C01: compile_correct_core) SteelVerif/C09/PropsCore.lean proves: tail_positions_marked_core (every application in tail position of a lambda body - the body, both arms of a tail if, the body of a tail let, the last form of a tail begin, to any depth; computed, global and self callees - is emitted as TAILCALL / CALLGLOBALTAIL+TAILCALL / TCOJMP, never FUNC; nontail_app_is_func for the converse), step_frames_core (only FUNC and CALLGLOBAL ever add a frame, and at most one), C01 tail_call_constant_frames / tail_call_stack_height / tail_call_global_constant_frames (a tail call through a variable, a capture or a call result leaves the frame count and the frame base unchanged and the stack is base ++ args), core_tail_loop_any_count (a TCOJMP loop halts for EVERY n after 11n+10 instructions with at most 1 frame and 5 operands at every point), the frame limit (stepLimited follows check_stack_overflow): frames_never_exceed_limit_core, call_at_limit_overflows_core, tail_call_never_overflows_core, runLimited_eq_run, deep_recursion_errors_core (non-tail recursion ends in the overflow error for every limit, never stuck). Not yet proved in general: core_loop_constant_space for EVERY tail-only closure program (stated in PropsCore.lean; its static and per-instruction halves are the theorems above). apply and handlers are not in the model; see the list at the end of Props.lean. The real engine is tied in by probes: for each loop shape the frame-stack length and the operand-stack length at an early and at a late iteration are read with the cfg(steel_verif) builtin #%verif-stack-depth and must be equal, for 10^6 (quick) / 10^7 (thorough) iterations, with STEEL_JIT on and off.",
     "level_note": "Trusted: Lean kernel, harness/probe, my transcription of code_gen.rs/vm.rs tail-call handling (tail-aware compile is validated against the reference semantics differentially, its correctness is not proved). Not modelled: native stack of the Rust vm() recursion, resident memory, Cranelift code.",
 }
 
